@@ -192,3 +192,33 @@ def need(cond: Any, msg: str) -> Any:
     if not cond:
         raise AnalysisError(msg)
     return cond
+
+
+def region(model, fn, depth: int = 3, skip_modules=("_storage",), stop=()):
+    """fn plus the package-internal functions it (transitively, bounded) calls: the code that a
+    rule anchored at `fn` has to look at once parts of fn were extracted into helpers.  Functions
+    of the storage module (roles of their own), the vendored typeguard and the qualified names in
+    `stop` are not entered."""
+    out, seen = [], set()
+    work = [(fn, 0)]
+    while work:
+        f, d = work.pop(0)
+        if f.qualname in seen:
+            continue
+        seen.add(f.qualname)
+        out.append(f)
+        if d >= depth:
+            continue
+        for c in model.calls_in(f):
+            t = model.resolve_call(f, c)
+            tgt = None
+            if t.kind == "func":
+                tgt = t.target
+            elif t.kind == "class":
+                tgt = model.lookup_method(t.target, "__init__")
+            if tgt is None or tgt.qualname in seen or tgt.qualname in stop:
+                continue
+            if tgt.module.short in skip_modules or tgt.module.short.startswith("_typeguard"):
+                continue
+            work.append((tgt, d + 1))
+    return out
